@@ -160,6 +160,22 @@ def _levels_and_arrow(ctx: Ctx, rng):
         return
     if event in ("gained", "both") and not warned:
         ctx.fail(f"{form!r} via {route}: the unseen level 'd' in {new_g} was not announced with a DataMismatchWarning", rp)
+    # the spec is re-used again and again (every follow-up data set is a new occasion): announced every time, same columns, same numbers
+    first = np.asarray(mm2, dtype=float)
+    for rep in range(2, rng.randint(2, 4) + 1):
+        try:
+            with warnings.catch_warnings(record=True) as wl:
+                warnings.simplefilter("always")
+                mm3 = mm.model_spec.get_model_matrix(mk(new_g, new_x))
+        except Exception as e:
+            ctx.fail(f"{form!r} via {route}: re-use number {rep} on {new_g}: {type(e).__name__}: {e}", rp)
+            break
+        if event in ("gained", "both") and not any(issubclass(w.category, DataMismatchWarning) for w in wl):
+            ctx.fail(f"{form!r} via {route}: re-use number {rep} of the same spec on {new_g}: the unseen level 'd' was not announced (it was the first time)", rp)
+            break
+        if list(mm3.model_spec.column_names) != names or not np.array_equal(np.asarray(mm3, dtype=float), first, equal_nan=True):
+            ctx.fail(f"{form!r} via {route}: re-use number {rep} of the same spec on {new_g} differs from the first re-use", rp)
+            break
     # the same request through the reference route: pandas object columns
     ref = model_matrix(form, pd.DataFrame({"g": pd.Series(train, dtype=object), "x": xs}))
     with warnings.catch_warnings():
